@@ -105,6 +105,7 @@ type ContractSet struct {
 	Standins  []Standin
 	Locks     []LockDiscipline
 	Unopaque  []Unopaque
+	FinalInit  map[string]string // final field -> the function that initialises it
 	InsertOnly map[string]bool // `insertonly pkg.Type.field`: a shared map whose entries are only ever added, never replaced
 	Sweeps    map[string]string // `sweep Cxx safety`: the check of Cxx also discharges the safety obligations of every contract listed under other properties
 	PureFns   map[string]bool // `purefn pkg.Type.Field`: a func-typed field holding pure functions (deterministic in their arguments, no effect)
@@ -436,6 +437,13 @@ func (cs *ContractSet) loadContractText(path string, pkgPath string, text string
 			if len(fields) > 1 {
 				if k := strings.LastIndex(fields[1], "."); k > 0 {
 					cs.Finals = append(cs.Finals, fields[1][:k]+"#"+fields[1][k+1:])
+					// final T.f init <function>: the named function is the one that sets the field up (it may write it)
+					if len(fields) >= 4 && fields[2] == "init" {
+						if cs.FinalInit == nil {
+							cs.FinalInit = map[string]string{}
+						}
+						cs.FinalInit[fields[1][:k]+"#"+fields[1][k+1:]] = fields[3]
+					}
 				}
 			}
 			cur = nil
